@@ -159,6 +159,29 @@ def reap_orphan_solvers():
         pass
 
 
+def memory_watchdog(scratch, stop, cap_gb, total_gb=40):
+    """No swap on the box: a cbmc that grows past the cap (or the largest one when all of ours together pass
+    total_gb) is killed; Kani then reports the harness as failed without a verdict, which the runner classifies
+    NOT-FINISHED. Only processes working in our scratch copy are considered."""
+    while not stop.wait(5):
+        try:
+            out = subprocess.run(["ps", "-eo", "pid,rss,comm,args"], stdout=subprocess.PIPE, text=True).stdout
+            mine = []
+            for ln in out.splitlines()[1:]:
+                f = ln.split(None, 3)
+                if len(f) == 4 and f[2] in ("cbmc", "z3", "kissat") and scratch in f[3]:
+                    mine.append((int(f[1]), int(f[0]), f[2]))
+            mine.sort(reverse=True)
+            kill = [m for m in mine if m[0] > cap_gb << 20]
+            if not kill and mine and sum(m[0] for m in mine) > total_gb << 20:
+                kill = mine[:1]
+            for rss, pid, comm in kill:
+                log(f"[watchdog] killing {comm} pid {pid} at {rss >> 20} GB (cap {cap_gb} GB per process, {total_gb} GB total)")
+                os.kill(pid, 9)
+        except Exception:  # noqa: BLE001
+            pass
+
+
 def short(name):
     return name.split("::")[-1]
 
@@ -321,6 +344,9 @@ def main():
     base = os.environ.get("VERIF_SCRATCH") or tempfile.gettempdir()
     scratch = tempfile.mkdtemp(prefix=f"eg-verif-{prop}-", dir=base)
     undecided = []
+    import threading
+    wd_stop = threading.Event()
+    threading.Thread(target=memory_watchdog, args=(scratch, wd_stop, int(os.environ.get("VERIF_MEM_GB", "14"))), daemon=True).start()
     not_finished = []   # resource limits (timeout, out of memory, solver crash): reported, never an alarm, do not change the exit code
     try:
         weave.copy_repo(scratch)
@@ -556,6 +582,7 @@ def main():
         pc = dict(pc, _not_finished=not_finished)
         return finish(prop, tier, seed, pc, rows, results, vio_lines, undecided, t_start, cmds, args, sel, findings, rc, logs)
     finally:
+        wd_stop.set()
         reap_orphan_solvers()
         if args.keep:
             log(f"[{prop}] scratch kept at {scratch}")
